@@ -374,6 +374,46 @@ func ApiMain(args []string) {
 		port, _ := strconv.Atoi(portS)
 		env := &apiEnv{lr: lr, rp: rp, srv: srv, cl: client.NewTcpClient(host, port, 100), http: &http.Client{Timeout: 10 * time.Second},
 			rec: rec, hid: fmt.Sprintf("api-%d-%d", *seed, h)}
+		// the log stream (websocket route) through the bundled log client: a single-process stream, a two-process
+		// stream (its handlers share one socket: the one that finishes first closes it under the other's feet),
+		// then single-process streams again - the server must go on serving them faithfully
+		wsStep := 0
+		wsStream := func(names string, judged bool) {
+			wsStep++
+			lc := client.NewLogClient(u.Host, "")
+			var mu sync.Mutex
+			got := []string{}
+			done, err := lc.ReadProcessLogs(names, 5, false, func(m api.LogMessage) {
+				mu.Lock()
+				got = append(got, m.Message)
+				mu.Unlock()
+			})
+			ended := false
+			if err == nil {
+				select {
+				case <-done:
+					ended = true
+				case <-time.After(3 * time.Second):
+				}
+			}
+			direct := []string{}
+			if judged {
+				if d, derr := lr.runner.GetProcessLog(names, 5, 0); derr == nil {
+					direct = d
+				}
+			}
+			mu.Lock()
+			rec.put(map[string]any{"kind": "apiws", "id": fmt.Sprintf("%s-ws%d", env.hid, wsStep), "names": names, "judged": judged,
+				"dialErr": err != nil, "ended": ended, "got": append([]string{}, got...), "direct": direct, "liveOk": env.live()})
+			mu.Unlock()
+		}
+		settle()
+		time.Sleep(15 * time.Millisecond) // the scripted commands have printed their lines
+		wsStream("svc", true)
+		wsStream("svc,job", false)
+		wsStream("svc,job", false)
+		wsStream("svc", true)
+		wsStream("job", true)
 		// write something into the logs
 		steps := 45
 		for s := 0; s < steps; s++ {
